@@ -10,10 +10,13 @@ CONSTANTS
   RealQ = {20, 155, 512}
   CoapNsA = {1, 2, 3}   OkLensA = {0, 3, 300}  ErrStA = {1, 2, 3, 4, 5, 6}  ErrLensA = {0, 3}  FaultLensA = {0, 3, 300}
   CoapNsB = {4, 5, 6}   OkLensB = {0, 300}     ErrStB = {}                  ErrLensB = {0}     FaultLensB = {300}
+  MapN = 4   OkLensM = {3}  ErrStM = {6}  FaultLensM = {3}
+  MapLong = {5, 6}   OkLensL = {3}  ErrStL = {6}
 INVARIANT BleFragmentSize
 INVARIANT BleReassembly
 INVARIANT NoEmptyContinuation
 INVARIANT BleResponse
 INVARIANT CoapAttribution
+INVARIANT CoapIdAttribution
 POSTCONDITION ExportCases
 CHECK_DEADLOCK FALSE
